@@ -133,21 +133,24 @@ class RequestHandlerBase(MethodView):
 
         if start_str == '':
             amount: int = int(end_str, 10)
-            start = content_length - amount
+            # a suffix longer than the resource selects the whole resource
+            start = max(0, content_length - amount)
             end = content_length - 1
         else:
             start = int(start_str, 10)
             if end_str == '':
                 end = content_length - 1
             else:
-                end = int(end_str, 10)
+                # a last-byte-pos beyond the end of the resource is clamped
+                end = min(int(end_str, 10), content_length - 1)
 
         status: int = 206
         headers: dict[str, str] = {
             'Accept-Ranges': 'bytes',
             'Content-Range': f'bytes {start}-{end}/{content_length}'
         }
-        if end >= content_length or end < start:
+        if end < start:
+            # unsatisfiable: no byte of the resource is selected
             headers['Content-Range'] = f'bytes */{content_length}'
             status = 416
         return (start, end, status, headers,)
